@@ -95,8 +95,13 @@ def gen_srr(rng, max_vox=24000, force_valid=True):
             l1 = l0
         spotsize, speed, scantime = int_mag_triple(rng, M)
         w = rng.choice([0, 0, 1, 2, 3, 5])
-        mode = rng.choice(["exact", "exact", "frac", "frac", "tie"])
-        if mode == "exact":
+        mode = rng.choice(["exact", "exact", "frac", "frac", "tie", "neartie"])
+        if mode == "neartie":  # the float product (w + 1/2) * scantime and its neighbours: the exact quotient is w + 1/2 +- ~1e-16,
+            seconds = (w + 0.5) * scantime  # so the float rounding of the division decides the warm-up in samples
+            step = rng.choice([0, 0, 1, -1])
+            if step:
+                seconds = float(np.nextafter(seconds, math.inf if step > 0 else -math.inf))
+        elif mode == "exact":
             seconds = w * scantime
         elif mode == "frac":
             seconds = (w + rng.choice([0.3, -0.3, 0.45, -0.45, 0.1])) * scantime
